@@ -121,6 +121,12 @@ func (l *lexer) nextToken(r rune, text string) (tok Token, _ bool) {
 		// FIXME(tdakkota): does it work in all cases?
 		if tt.IsFunction() {
 			scanSpace(&l.scanner)
+			// Comments are insignificant here too: `sum # total\n(...)`.
+			for l.scanner.Peek() == '#' {
+				l.scanner.Next()
+				lexerql.ScanComment(&l.scanner)
+				scanSpace(&l.scanner)
+			}
 			switch l.scanner.Peek() {
 			case '(', 'b', 'w': // "(", "by", "without"
 			default:
